@@ -2,6 +2,8 @@ import Secp.Proofs.PointOps
 import Secp.Proofs.PointOpsAffine
 import Secp.Proofs.PointOpsR2
 import Secp.Proofs.Chains
+import Secp.Gen.Formulas
+import Secp.Proofs.AbsSound
 /-
   Props/C04 — point addition and doubling implement the group law for every representation.
 
@@ -62,6 +64,36 @@ theorem pointOps : PointOps where
   add3 := Secp.Proofs.PointOps.pointOps_add3
   toAffine := Secp.Proofs.PointOps.pointOps_toAffine
   decompress := fun x odd hx => Secp.Proofs.Chains.decompress_spec x odd hx
+
+
+/-! ### The value-level theorems above describe the code only if no limb wraps
+
+The theorems of this file are about the formula programs run at VALUE level (field elements as
+naturals mod P).  They carry over to the uint32 limbs of the real routines exactly when the
+abstract interpreter accepts every path of the regenerated limb-level program (`absPath_sound`,
+C16): every `Negate(m)` is given at least the magnitude of its operand, no Add/MulInt exceeds
+capacity, no comparison sees a denormalised value, result coordinates end normalised.  Those
+obligations are restated here because the group-law claim of this property depends on them. -/
+section LimbLevel
+open Secp.FOp Secp.Gen.Formulas
+set_option maxRecDepth 1000000
+
+private def nrmIn (n : Nat) : AState := List.replicate n (some (1, true))
+
+theorem addZ1AndZ2EqualsOne_limb_exact : addZ1AndZ2EqualsOne.absOK (nrmIn 9) [6, 7, 8] = true := by decide +kernel
+theorem addZ1EqualsZ2_limb_exact : addZ1EqualsZ2.absOK (nrmIn 9) [6, 7, 8] = true := by decide +kernel
+theorem addZ2EqualsOne_limb_exact : addZ2EqualsOne.absOK (nrmIn 9) [6, 7, 8] = true := by decide +kernel
+theorem addGeneric_limb_exact : addGeneric.absOK (nrmIn 9) [6, 7, 8] = true := by decide +kernel
+theorem doubleZ1EqualsOne_limb_exact : doubleZ1EqualsOne.absOK (nrmIn 6) [3, 4, 5] = true := by decide +kernel
+theorem doubleGeneric_limb_exact : doubleGeneric.absOK (nrmIn 6) [3, 4, 5] = true := by decide +kernel
+theorem AddNonConst_limb_exact : AddNonConst.absOK (nrmIn 9) [6, 7, 8] = true := by decide +kernel
+theorem AddNonConst_r1_limb_exact : AddNonConst_r1.absOK (nrmIn 6) [0, 1, 2] = true := by decide +kernel
+theorem AddNonConst_r2_limb_exact : AddNonConst_r2.absOK (nrmIn 6) [3, 4, 5] = true := by decide +kernel
+theorem DoubleNonConst_limb_exact : DoubleNonConst.absOK (nrmIn 6) [3, 4, 5] = true := by decide +kernel
+theorem DoubleNonConst_r1_limb_exact : DoubleNonConst_r1.absOK (nrmIn 3) [0, 1, 2] = true := by decide +kernel
+theorem ToAffine_limb_exact : ToAffine.absOK (nrmIn 3) [0, 1, 2] = true := by decide +kernel
+
+end LimbLevel
 
 -- non-vacuity: the generator with Z = 1 is well formed
 example : Jac.WF (Gx, Gy, 1) := by
